@@ -261,3 +261,103 @@ def same(a, e):
     if isinstance(e, str):
         return isinstance(a, str) and a == e
     return a == e
+
+
+# ---- a second schema in the same process declaring the SAME input-side type names differently: each engine coerces per its own declarations ----
+NAME_B = "c04_b"
+SDL_B = ("scalar My\nenum Color { GREEN BLUE }\ninput Inp { term: String! limit: Int = 10 c: Color = BLUE }\ntype Query {\n"
+         "  p_c(x: Color, w: Int): String\n  p_lc(x: [Color!], w: Int): String\n  p_o(x: Inp, w: Int): String\n  p_lo(x: [Inp!], w: Int): String\n  p_ms(x: My, w: Int): String\n}\n")
+LOG_B = []
+
+
+class MyB:
+    def coerce_output(self, v):
+        return v
+
+    def coerce_input(self, v):
+        return v + 1 if isinstance(v, int) and not isinstance(v, bool) else v
+
+    def parse_literal(self, ast):
+        return None
+
+
+Scalar("My", schema_name=NAME_B)(MyB)
+TYPES_B = [("c", "Color"), ("lc", "[Color!]"), ("o", "Inp"), ("lo", "[Inp!]"), ("ms", "My")]
+for _n, _t in TYPES_B:
+    @Resolver("Query.p_%s" % _n, schema_name=NAME_B)
+    async def _rb(parent, args, ctx, info):
+        LOG_B.append(args)
+        return "ok"
+ENG_B = build(SDL_B, NAME_B, query_cache_decorator=DictCache())      # built AFTER schema c04 served requests for every type string
+MODEL_B = model_from_sdl(SDL_B)
+MODEL_B["custom"] = {"My": {"in": lambda v: v + 1 if isinstance(v, int) and not isinstance(v, bool) else v, "lit": lambda n: None, "out": lambda v: v}}
+QS_B = {n: "query Q($v: %s, $w: Int!) { p_%s(x: $v, w: $w) }" % (t, n) for n, t in TYPES_B}
+ASTS_B = {n: gqlfront.parse(q) for n, q in QS_B.items()}
+ENUM_LEAVES = ["RED", "GREEN", "BLUE"]
+
+
+def _check(eng, model, log, q, ast, variables):
+    del log[:]
+    ok, resp = safe(lambda: env.run(eng.execute(q, variables=dict(variables))))
+    observe(q, resp, list(log))
+    if not ok:
+        return False
+    op = ast["definitions"][0]
+    vardefs = [(vd["variable"]["name"]["value"], tref_of(vd["type"]), vd["defaultValue"]) for vd in op["variableDefinitions"]]
+    try:
+        exp = C.coerce_variables(model, vardefs, variables)
+    except C.Bad:
+        exp = None
+    observe(("expected", exp))
+    if exp is None:
+        return resp.get("data") is None and bool(resp.get("errors")) and not log
+    if resp.get("errors") or len(log) != 1:
+        return False
+    got = log[0]
+    if ("x" in got) != ("v" in exp):
+        return False
+    if "v" in exp:
+        a, e = got["x"], exp["v"]
+        if (a is None) != (e is None) or (a is not None and not same(a, e)):
+            return False
+    return True
+
+
+@obligation(tier="quick", timeout=200, shards=[{"t": n, "bits": b} for n, _ in TYPES_B for b in (range(16) if n in ("o", "lo") else range(1))],
+            quick_shards=[0, 1, 2 + 1, 2 + 2, 2 + 5, 2 + 9, 18 + 1, 34],
+            samples=[{"e": 0, "s": "x", "n": 5, "aslist": False}, {"e": 2, "s": "BLUE", "n": -1, "aslist": True}, {"e": 3, "s": "GREEN", "n": 0, "aslist": False}],
+            symbolic=["s: str (all strings) — enum name / `term`", "n: int (unbounded) — `limit`, `x`, the custom scalar's input"],
+            selectors=["e: enum leaf RED / GREEN / BLUE / the symbolic string", "aslist: value wrapped in a list", "shard: variable type, key presence bits (term, limit, x, c)"],
+            bounds="2 schemas that declare Color, Inp and My differently; 5 variable types; 16 key sets",
+            note="two schemas in one process declare the same input type names differently (enum values, input fields and defaults, custom scalar): after the first served requests for every "
+                 "type, the second coerces variables per ITS OWN declarations (reference CoerceVariableValues on its own model), and the first is still unaffected afterwards")
+def c04_two_schemas(e: int, s: str, n: int, aslist: bool) -> bool:
+    """
+    post: _
+    """
+    sh = shard()
+    t = sh["t"]; bits = sh["bits"]
+    e = pick(e, 4)
+    en = s if e == 3 else ENUM_LEAVES[e]
+    if t in ("c", "lc"):
+        v = en
+    elif t == "ms":
+        v = n
+    else:
+        v = {}
+        if bits & 1:
+            v["term"] = s
+        if bits & 2:
+            v["limit"] = n
+        if bits & 4:
+            v["x"] = n
+        if bits & 8:
+            v["c"] = en
+    if pickb(aslist):
+        v = [v]
+    variables = {"v": v, "w": 1}
+    if not _check(ENG_B, MODEL_B, LOG_B, QS_B[t], ASTS_B[t], variables):
+        return verdict(False)
+    # and the first schema afterwards, same type string, its own declarations
+    ti = [i for i, (nm, _, _) in enumerate(TYPES) if nm == t][0]
+    return verdict(_check(ENG, MODEL, LOG, QS[(ti, 0)], ASTS[(ti, 0)], variables))
